@@ -131,7 +131,7 @@ func (r *reporter) finish() int {
 	if len(r.fresh) == 0 {
 		return 0
 	}
-	os.MkdirAll(filepath.Join(verifDir, "replays"), 0o755)
+	os.MkdirAll(filepath.Join(outDir, "replays"), 0o755)
 	seen := map[string]bool{}
 	for _, v := range r.fresh {
 		key := v.Class + "|" + v.Attrs["dedupe"]
@@ -143,7 +143,7 @@ func (r *reporter) finish() int {
 		if r.nfile > 10 {
 			break
 		}
-		p := filepath.Join(verifDir, "replays", fmt.Sprintf("%s-%d-%d.json", r.prop, v.Seed, r.nfile))
+		p := filepath.Join(outDir, "replays", fmt.Sprintf("%s-%d-%d.json", r.prop, v.Seed, r.nfile))
 		b, _ := json.MarshalIndent(v, "", " ")
 		if err := os.WriteFile(p, b, 0o644); err != nil {
 			fatalHarness("write replay: %v", err)
@@ -167,9 +167,9 @@ type evidence struct {
 }
 
 func writeEvidence(e *evidence) {
-	os.MkdirAll(filepath.Join(verifDir, "evidence"), 0o755)
+	os.MkdirAll(filepath.Join(outDir, "evidence"), 0o755)
 	b, _ := json.MarshalIndent(e, "", " ")
-	p := filepath.Join(verifDir, "evidence", e.PropertyID+".json")
+	p := filepath.Join(outDir, "evidence", e.PropertyID+".json")
 	if err := os.WriteFile(p, append(b, '\n'), 0o644); err != nil {
 		fatalHarness("write evidence: %v", err)
 	}
